@@ -30,7 +30,8 @@ def main(ids, tier="quick", props=None):
                     row["checks"][p] = "not-claimed"
                     continue
                 t0 = time.time()
-                env = dict(os.environ, VERIF_REPO=t, VERIF_EVIDENCE_DIR=os.path.join(t, "ev"))
+                env = dict(os.environ, VERIF_REPO=t, VERIF_EVIDENCE_DIR=os.path.join(t, "ev"),
+                           PYVC_QUERY_CACHE=os.environ.get("PYVC_QUERY_CACHE", "/tmp/pyvc_query_cache"))  # evaluation tooling only
                 r = subprocess.run([os.path.join(ROOT, "check"), p, "--tier", tier], capture_output=True, text=True, env=env, cwd=ROOT)
                 viol = [l for l in r.stdout.splitlines() if l.startswith("VIOLATION")]
                 row["checks"][p] = {"exit": r.returncode, "violations": len(viol), "first": (viol[0] if viol else ""),
